@@ -1,6 +1,6 @@
 (* C19, slicing: what the slicing model keeps consists of visible messages only, and what it removes consists of invisible messages only *)
 From Coq Require Import List String Bool Arith Lia.
-From FV Require Import Base.Re Base.Grammar Model.ForecastM Model.SliceM.
+From FV Require Import Base.Re Base.Grammar Model.ForecastM Model.SliceM Proofs.C19.
 Import ListNotations.
 Open Scope list_scope.
 
@@ -86,3 +86,86 @@ Proof.
   - discriminate.
 Qed.
 End Vis.
+
+(* ---- every interaction of the sliced protocol is the visible part of an interaction of the full protocol ---- *)
+Notation Lm r w := (lang msg msg macc r w).
+
+Section Sound.
+Variable vis : msg -> bool.
+Variable rules : list (string * rhs).
+
+Definition Pre (full : mre) (w : list msg) : Prop := exists w', Lm full w' /\ filter vis w' = w.
+
+Lemma removed_has_invisible_word fuel r full :
+  islice fuel vis rules r = Some None -> inline fuel rules r = Some full -> nonempty msg full = true -> Pre full [].
+Proof.
+  intros Hs Hi Hn.
+  pose proof (islice_removed_invisible vis rules fuel r full Hs Hi) as Hinv.
+  apply (nonempty_spec msg macc String.eqb_eq) in Hn. destruct Hn as [w' Hw'].
+  exists w'. split; [exact Hw'|].
+  pose proof (lang_atoms msg macc String.eqb_eq full w' Hw') as Hat.
+  clear Hw'. induction Hat as [|x w' Hx _ IH]; [reflexivity|]. cbn [filter].
+  rewrite Forall_forall in Hinv. rewrite (Hinv x Hx). exact IH.
+Qed.
+
+Lemma pow_pre (a' a : mre) :
+  (forall w, Lm a' w -> Pre a w) ->
+  forall n w, pow msg (lang msg msg macc a') n w -> exists w', pow msg (lang msg msg macc a) n w' /\ filter vis w' = w.
+Proof.
+  intros H n w Hp. induction Hp as [|n u v Hu _ IH].
+  - exists []. split; [constructor|reflexivity].
+  - destruct (H u Hu) as (u' & Hu' & Eu). destruct IH as (v' & Hv' & Ev).
+    exists (u' ++ v'). split; [constructor; assumption|]. rewrite filter_app, Eu, Ev. reflexivity.
+Qed.
+
+Theorem islice_sound : forall fuel r m full,
+  islice fuel vis rules r = Some (Some m) -> inline fuel rules r = Some full -> hp full = true ->
+  forall w, Lm m w -> Pre full w.
+Proof.
+  induction fuel as [|f IH]; intros r m full; [discriminate|]. cbn [islice inline].
+  destruct r as [rs|rs|r' mn mx|nt|t].
+  - (* Alt *)
+    destruct (keep_list (islice f vis rules) rs) as [k|] eqn:Ek; [|discriminate].
+    intros Hm. assert (Em : m = alts k) by (destruct k; [discriminate|injection Hm as <-; reflexivity]). subst m. clear Hm.
+    revert k Ek full. induction rs as [|x rs IHrs]; intros k Ek full.
+    + cbn in Ek. injection Ek as <-. intros _ _ w [].
+    + cbn [keep_list] in Ek. destruct (islice f vis rules x) as [[a'|]|] eqn:Ex; [| |discriminate];
+        (destruct (keep_list (islice f vis rules) rs) as [k'|] eqn:Ek'; [|discriminate]); injection Ek as <-;
+        (destruct (inline f rules x) as [a|] eqn:Ea; [|discriminate]);
+        match goal with |- context [match ?g with Some b => _ | None => None end] => destruct g as [b|] eqn:Eb; [|discriminate] end;
+        intros E; injection E as <-; cbn [hp]; rewrite andb_true_iff; intros [Ha Hb] w.
+      * change (alts (a' :: k')) with (RAlt msg a' (alts k')). cbn [lang]. intros [Hw|Hw].
+        -- destruct (IH x a' a Ex Ea Ha w Hw) as (w' & Hw' & E). exists w'. split; [left; exact Hw'|exact E].
+        -- destruct (IHrs k' eq_refl b eq_refl Hb w Hw) as (w' & Hw' & E). exists w'. split; [right; exact Hw'|exact E].
+      * intros Hw. destruct (IHrs k' eq_refl b eq_refl Hb w Hw) as (w' & Hw' & E). exists w'. split; [right; exact Hw'|exact E].
+  - (* Cat *)
+    destruct (keep_list (islice f vis rules) rs) as [k|] eqn:Ek; [|discriminate].
+    intros Hm. assert (Em : m = cats k) by (destruct k; [discriminate|injection Hm as <-; reflexivity]). subst m. clear Hm.
+    revert k Ek full. induction rs as [|x rs IHrs]; intros k Ek full.
+    + cbn in Ek. injection Ek as <-. intros E. injection E as <-. intros _ w Hw. cbn in Hw. subst w. exists []. split; reflexivity.
+    + cbn [keep_list] in Ek. destruct (islice f vis rules x) as [[a'|]|] eqn:Ex; [| |discriminate];
+        (destruct (keep_list (islice f vis rules) rs) as [k'|] eqn:Ek'; [|discriminate]); injection Ek as <-;
+        (destruct (inline f rules x) as [a|] eqn:Ea; [|discriminate]);
+        match goal with |- context [match ?g with Some b => _ | None => None end] => destruct g as [b|] eqn:Eb; [|discriminate] end;
+        intros E; injection E as <-; cbn [hp]; rewrite !andb_true_iff; intros [[[Ha Hb] Hna] Hnb] w.
+      * change (cats (a' :: k')) with (RCat msg a' (cats k')). cbn [lang]. intros (u & v & -> & Hu & Hv).
+        destruct (IH x a' a Ex Ea Ha u Hu) as (u' & Hu' & Eu).
+        destruct (IHrs k' eq_refl b eq_refl Hb v Hv) as (v' & Hv' & Ev).
+        exists (u' ++ v'). split; [exists u', v'; auto|]. rewrite filter_app, Eu, Ev. reflexivity.
+      * intros Hw. destruct (removed_has_invisible_word f x a Ex Ea Hna) as (u' & Hu' & Eu).
+        destruct (IHrs k' eq_refl b eq_refl Hb w Hw) as (v' & Hv' & Ev).
+        exists (u' ++ v'). split; [exists u', v'; auto|]. rewrite filter_app, Eu, Ev. reflexivity.
+  - (* Rep *)
+    destruct (islice f vis rules r') as [[a'|]|] eqn:Er; [|discriminate|discriminate].
+    intros E. injection E as <-. destruct (inline f rules r') as [a|] eqn:Ea; [|discriminate].
+    intros E. injection E as <-. cbn [hp lang]. intros Ha w (n & Hmn & Hle & Hp).
+    destruct (pow_pre a' a (IH r' a' a Er Ea Ha) n w Hp) as (w' & Hp' & E).
+    exists w'. split; [exists n; auto|exact E].
+  - (* Ref *)
+    destruct (assoc String.eqb nt rules) as [body|]; [apply IH|].
+    destruct (vis nt) eqn:Ev; [|discriminate]. intros E. injection E as <-. intros E. injection E as <-. intros _ w Hw.
+    exists w. split; [exact Hw|]. cbn [lang] in Hw. destruct Hw as (x & -> & Hx). apply String.eqb_eq in Hx. subst x.
+    cbn [filter]. rewrite Ev. reflexivity.
+  - discriminate.
+Qed.
+End Sound.
